@@ -283,9 +283,10 @@ func check(seq []int, local int) func(any) (string, string) {
 					if alive && e.oOpen && (r.LocalOK || r.LocalErr != "") {
 						return "channel reply delivered to a request that was not waiting for it (stale reply consumed)", fmt.Sprintf("%s: ok=%v err=%q", name, r.LocalOK, r.LocalErr)
 					}
-				case 7, 8:
+				case 7, 8, 9, 10:
 					// second request after a first one during which the sequence arrived
-					if alive && (local == 8 || e.oOpen) && (r.LocalOK || r.LocalErr != "") {
+					// (9, 10: and a one-way request was sent while the first was still waiting)
+					if alive && (local == 8 || local == 10 || e.oOpen) && (r.LocalOK || r.LocalErr != "") {
 						return "reply delivered to a request that was not waiting for it (reply left over from an earlier request consumed)", fmt.Sprintf("%s: ok=%v err=%q", name, r.LocalOK, r.LocalErr)
 					}
 					if !r.FirstDone {
@@ -361,6 +362,14 @@ func run(c *vf.Ctx) {
 	gen2 = func(prefix []int, d int) {
 		add(prefix, 7, 0, "two requests (channel), reply-alphabet sequences")
 		add(prefix, 8, 0, "two requests (global), reply-alphabet sequences")
+		if len(prefix) <= 2 {
+			add(prefix, 9, 0, "request waiting + one-way request (channel)")
+			add(prefix, 10, 0, "request waiting + one-way request (global)")
+			if len(prefix) <= 1 {
+				add(prefix, 9, 1, "request waiting + one-way request bound1")
+				add(prefix, 10, 1, "request waiting + one-way request bound1")
+			}
+		}
 		if len(prefix) <= depth1 {
 			add(prefix, 7, 1, "two requests bound1")
 			add(prefix, 8, 1, "two requests bound1")
